@@ -1269,7 +1269,7 @@ impl<B: Sym> Spec for Huff<B> {
     }
     fn push_via<K: Sink<Self::R>>(k: &mut K, v: &Vec<B>, f: &mut Forms) -> K::Out {
         const NAMES: &[&str] =
-            &["&Vec<B>", "Vec<B>", "&[B]", "[B;N]", "&[B;N]", "Wrapped(raw region)", "Wrapped(borrowed)"];
+            &["&Vec<B>", "Vec<B>", "&[B]", "[B;N]", "&[B;N]", "Wrapped(raw region)", "Wrapped(borrowed)", "Wrapped(encoded region)"];
         match f.pick("Huffman", NAMES) {
             0 => k.put(v),
             1 => k.put(v.clone()),
@@ -1281,9 +1281,19 @@ impl<B: Sym> Spec for Huff<B> {
                 let i = tmp.push(v.as_slice());
                 k.put(tmp.index(i))
             }
-            _ => {
+            6 => {
                 let b: RI<'_, Self> = IntoOwned::borrow_as(v);
                 k.put(b)
+            }
+            _ => {
+                // a read item of a container in its encoded representation
+                let mut tmp = HuffmanContainer::<B>::default();
+                let _ = tmp.push(v.as_slice());
+                let _ = tmp.push(v.as_slice());
+                let mut enc = HuffmanContainer::<B>::merge_regions(std::iter::once(&tmp));
+                let _pad = enc.push(v.as_slice());
+                let i = enc.push(v.as_slice());
+                k.put(enc.index(i))
             }
         }
     }
